@@ -174,6 +174,13 @@ func (fc *FuncCtx) jsonWrite(st *State, call *ast.CallExpr, fn *types.Func, kind
 		}
 		return rs
 	}
+	// obligations are raised only in functions whose contract declares that the buffer holds JSON
+	// (`opt json`); other uses of bytes.Buffer (error texts) just update the ghost state
+	saved := fc.quiet
+	if fc.contract == nil || fc.contract.Opts["json"] == "" {
+		fc.quiet = true
+	}
+	defer func() { fc.quiet = saved }()
 	badOf := func(s string) string { return eq("("+jsonSort+"_Ph "+s+")", strconv.Itoa(jsBAD)) }
 	switch kind {
 	case "jsreset":
